@@ -335,6 +335,14 @@ def make_configs(tree):
         def capture(req, seen=cfg.seen):
             seen["path"] = req.path
         app.add_before_response(capture)
+        if len(cfg.name) % 2:
+            # a hook that looks at the finished body before it is sent (an
+            # ETag / validator hook); .data leaves the response as it was
+            def peek(req, res):
+                if hasattr(res, "data"):
+                    len(res.data)
+                return res
+            app.add_after_response(peek)
         cfg.app = app
     return cfgs
 
@@ -607,7 +615,7 @@ def run(ctx):
                     target=lambda: box.append(call(cfg.app, env)),
                     daemon=True)
                 worker.start()
-                worker.join(10)
+                worker.join(4)
                 if not box:
                     # e.g. a named pipe opened for reading: the request
                     # never returns; release the reader and go on
